@@ -24,6 +24,37 @@ type PrefixDecision struct {
 
 type pathInfeasible struct{}
 
+type pendingAssert struct {
+	cond *sym
+	id   string
+}
+
+// flush decides the assertions accumulated since the last decision. They all share one path condition
+// pc, and "c1 holds under pc, c2 under pc&c1, ..." is equivalent to the validity of c1&...&ck under pc, so
+// one query settles the batch; only if that query is sat are the assertions examined one by one.
+func (x *Explorer) flush() {
+	if len(x.pending) == 0 || x.flushing {
+		return
+	}
+	x.flushing = true
+	defer func() { x.flushing = false }()
+	p := x.pending
+	x.pending = nil
+	x.onFlush(p)
+}
+
+// assumeUnchecked records c as a single-alternative decision without asking the solver (the caller
+// knows pc&c is satisfiable).
+func (x *Explorer) assumeUnchecked(c string) {
+	x.S.push()
+	x.S.assert(c)
+	x.trail = append(x.trail, decision{alts: []string{c}, choice: 0, nalts: 1, limit: 1})
+	x.pos++
+	if len(x.trail) > x.MaxTrail {
+		x.MaxTrail = len(x.trail)
+	}
+}
+
 // Explorer enumerates all feasible paths depth-first by re-execution.
 type Explorer struct {
 	S       *solver
@@ -34,6 +65,9 @@ type Explorer struct {
 	nextPayload uint64
 	ShardI, ShardW, ShardDepth int
 	locked  int // decisions [0,locked) belong to the work item's prefix and are never backtracked
+	pending []pendingAssert // assertions made since the last decision, decided together in one query
+	flushing bool
+	onFlush func(p []pendingAssert)
 	inconclusive map[string]int
 	Skipped int
 	Paths   int
@@ -50,6 +84,7 @@ type ndVar struct {
 func NewExplorer(s *solver) *Explorer { return &Explorer{S: s, fresh: map[string]int{}} }
 
 func (x *Explorer) startPath() {
+	x.pending = nil
 	x.pos = 0
 	x.fresh = map[string]int{}
 	x.ndVars = x.ndVars[:0]
@@ -83,6 +118,15 @@ func (x *Explorer) tryAlt(alt string) bool {
 		x.S.pop()
 		return false
 	}
+	if known, feasible := x.S.implied(alt); known && !x.S.oneshot {
+		x.S.Saved++
+		if feasible {
+			x.S.assert(alt)
+			return true
+		}
+		x.S.pop()
+		return false
+	}
 	x.S.assert(alt)
 	r := x.S.check()
 	if r == "sat" {
@@ -97,6 +141,7 @@ func (x *Explorer) tryAlt(alt string) bool {
 
 // decide picks one of alts (SMT Bool expressions), consistent with the path condition.
 func (x *Explorer) decide(alts []string) int {
+	x.flush()
 	if x.pos < len(x.trail) && x.trail[x.pos].alts == nil {
 		// imported prefix decision: rebuild the solver stack while following it
 		d := &x.trail[x.pos]
@@ -200,6 +245,7 @@ func (x *Explorer) Shed() [][]PrefixDecision {
 
 // checkSat asks whether extra is satisfiable together with the path condition.
 func (x *Explorer) checkSat(extra string) (bool, string) {
+	x.flush()
 	x.S.push()
 	x.S.assert(extra)
 	r := x.S.check()
